@@ -449,3 +449,82 @@ def same_block_chain(a, b):
         if par in cb and cb[par] != fld and {fld, cb[par]} == {"body", "orelse"}:
             return False
     return True
+
+
+# --------------------------------------------------- value of a target along a path, on a finite environment
+def path_value(path, ev, env0, target, upto=None):
+    """Walk the events of `path` in order, keeping for every local name / self attribute the expression it holds
+    (straight-line substitution; tuple unpacking of divmod() and of literal tuples; augmented assignments folded).
+    Branch conditions are evaluated under `env0` after substitution: a definitely contradicted condition makes the
+    path infeasible.  -> ('infeasible', None) | ('value', v) | ('unknown', reason) for the final value of `target`
+    (normalised text, e.g. 'self.segmentCount'); ('absent', None) when the path never stores it."""
+    sym = {}
+    stored = False
+
+    def sub(e):
+        return _SubstText(sym).visit(clone(e))
+
+    def put(tgt, val):
+        nonlocal stored
+        k = norm_nc(tgt)
+        sym[k] = val
+        if k == target:
+            stored = True
+    for e in path.events:
+        if upto is not None and e.node is upto:
+            break
+        if e.kind == "cond":
+            try:
+                v = ev.eval3(sub(e.node), env0)
+            except Exception:
+                v = None
+            if v is not None and v != e.pol:
+                return "infeasible", None
+        elif e.kind == "stmt":
+            n = e.node
+            if isinstance(n, ast.Assign) and len(n.targets) == 1:
+                t = n.targets[0]
+                if isinstance(t, (ast.Name, ast.Attribute)):
+                    put(t, sub(n.value))
+                elif isinstance(t, ast.Tuple):
+                    val = n.value
+                    parts = None
+                    if isinstance(val, ast.Call) and isinstance(val.func, ast.Name) and val.func.id == "divmod" and len(val.args) == 2 and len(t.elts) == 2:
+                        a, b = sub(val.args[0]), sub(val.args[1])
+                        parts = [ast.BinOp(left=a, op=ast.FloorDiv(), right=b), ast.BinOp(left=clone(a), op=ast.Mod(), right=clone(b))]
+                    elif isinstance(val, ast.Tuple) and len(val.elts) == len(t.elts):
+                        parts = [sub(x) for x in val.elts]
+                    for i, te in enumerate(t.elts):
+                        if isinstance(te, (ast.Name, ast.Attribute)):
+                            put(te, parts[i] if parts is not None else ast.Name(id="__unknown__", ctx=ast.Load()))
+            elif isinstance(n, ast.AugAssign) and isinstance(n.target, (ast.Name, ast.Attribute)):
+                k = norm_nc(n.target)
+                cur = sym.get(k, clone(n.target))
+                put(n.target, ast.BinOp(left=clone(cur), op=n.op, right=sub(n.value)))
+    if not stored:
+        return "absent", None
+    try:
+        return "value", ev.value(sym[target], env0)
+    except NotConst as ex:
+        return "unknown", str(ex)
+    except (TypeError, ZeroDivisionError, ValueError) as ex:
+        return "unknown", type(ex).__name__
+
+
+class _SubstText(ast.NodeTransformer):
+    """replace names and attribute chains whose normalised text is a key by (a clone of) the mapped expression"""
+    def __init__(self, mapping):
+        self.mapping = mapping
+
+    def visit_Name(self, node):
+        if isinstance(node.ctx, ast.Load) and node.id in self.mapping:
+            return clone(self.mapping[node.id])
+        return node
+
+    def visit_Attribute(self, node):
+        if isinstance(node.ctx, ast.Load):
+            k = norm_nc(node)
+            if k in self.mapping:
+                return clone(self.mapping[k])
+        self.generic_visit(node)
+        return node
